@@ -304,8 +304,20 @@ func genScenario(rng *mrand.Rand, i int) *scenario {
 			}
 		case p < 7:
 			pt.Host = fmt.Sprintf("2001:db8::%x", 1+rng.IntN(250))
-			pt.Port = 443
-			pt.Arg = "[" + pt.Host + "]:443"
+			switch rng.IntN(4) {
+			case 0:
+				pt.Port = 443
+				pt.Arg = "[" + pt.Host + "]:443"
+			case 1:
+				pt.Arg = "[" + pt.Host + "]" // the bracketed literal without a port
+			case 2:
+				pt.Arg = "https://[" + pt.Host + "]/x"
+				pt.URI = true
+			default:
+				pt.Port = 8443
+				pt.Arg = "https://[" + pt.Host + "]:8443"
+				pt.URI = true
+			}
 		default:
 			pt.Host = originPool[perm[k]]
 			if k > 0 && rng.IntN(10) == 0 && !strings.Contains(sc.Parts[0].Host, ":") {
